@@ -119,7 +119,7 @@ a(r'SymbolFile>::fill_symbol\|assert:overflow:Add\|address \(minidump_common::tr
 a(r'SymbolFile>::walk_frame::\{closure#0\}\|call:index:index\|info\.add_rules', 'count <= len by the while condition `count < len`')
 a(r'breakpad_symbols::moz_lookup\|call:unwrap:unwrap', 'server_rel is built by the lookup functions as "<name>/<id>/<file>": never empty', 'C17.3')
 a(r'CachedAsyncResult::<T, E>::get::\{closure#0\}\|call:unwrap:unwrap', 'the guard was filled with Some(..) on the is_none() branch just above and is still held', 'C12.2')
-a(r'Symbolizer::get_symbols::.*\|assert:overflow:Add\|_\d+\.symbols_(requested|processed) 1', 'u64 counter incremented once per distinct module')
+a(r'Symbolizer::get_symbols::.*\|assert:overflow:Add\|_\.symbols_(requested|processed) 1', 'u64 counter incremented once per distinct module')
 
 # ---------------------------------------------------------------- minidump_unwind
 a(r'amd64::get_caller_by_frame_pointer::\{closure#0\}\|assert:overflow:Mul\|offset offset_step', 'offset in 0..=offset_max_scan (0 or 15), offset_step 0 or 16: literals at the two call sites')
